@@ -10,3 +10,7 @@ const overlayBuild = true
 func withInCap(opts []taskqueue.Option, n int) []taskqueue.Option {
 	return append(opts, taskqueue.VerifInCap(n))
 }
+
+func queueFields(q *taskqueue.Queue) (workers, depth, inCap int, handler bool) {
+	return taskqueue.VerifFields(q)
+}
